@@ -189,7 +189,7 @@ def xgcd(*args):
 
 
 FUNCTIONS['GCD'] = wrap_func(xgcd)
-FUNCTIONS['INT'] = wrap_ufunc(math.floor)
+FUNCTIONS['INT'] = wrap_ufunc(lambda x: float(math.floor(x)))
 FUNCTIONS['ISO.CEILING'] = FUNCTIONS['CEILING.PRECISE']
 
 
